@@ -65,9 +65,14 @@ class Style:
         return name.upper() if self._id == "upper" else name
 
     def end(self, what, name):
-        form = self.pick(f"end-form:{what}", ["end what name", "end what", "end", "endwhat", "endwhat name"])
+        forms = ["end what name", "end what", "end", "endwhat", "endwhat name"]
+        if what in ("subroutine", "function", "program"):
+            forms.append("label end what name")  # the END statement of a procedure / program carrying a statement label
+        form = self.pick(f"end-form:{what}", forms)
         w = self.kw(what)
         e = self.kw("end")
+        if form == "label end what name":
+            return f"99 {e} {w} {self.ref(name)}" if name else f"99 {e} {w}"
         if form == "end":
             return e
         if form == "end what":
